@@ -57,7 +57,33 @@ def short(t):
     return k
 
 
-def site_stream(mmv, pkg, shapes=((0, 0), (1, 3))):
+def single_optional_variants(mmv, a, limit=12):
+    """for a structure-typed alternative: the minimal value plus exactly ONE optional property (each in turn, for every alternative of
+    that property's own type) — key-presence dispatch in union hooks is sensitive to which optional members are there"""
+    a = mmv.resolve_alias(a)
+    if not (a["kind"] == "reference" and a["name"] in mmv.S):
+        return []
+    base = mmv.value(a, 1, 0, 0)
+    if not isinstance(base, dict):
+        return []
+    out = []
+    for pn, p in mmv.flat(a["name"]).items():
+        if not p.get("optional") or pn in base:
+            continue
+        for alt in (0, 1, 2):
+            try:
+                v = dict(base)
+                v[pn] = mmv.value(p["type"], 2, alt, 2)
+            except Exception:
+                continue
+            if v not in out:
+                out.append(v)
+        if len(out) >= limit * 3:
+            break
+    return out
+
+
+def site_stream(mmv, pkg, shapes=((0, 0), (1, 3)), single_optional=False):
     """every union occurrence x every alternative x {minimal, near-maximal} value of that alternative in a minimal enclosing value;
     arrays get a heterogeneous element list when several alternatives exist; plus every request's result alternatives."""
     cases = []
@@ -76,6 +102,8 @@ def site_stream(mmv, pkg, shapes=((0, 0), (1, 3))):
                     v = mmv.value(a, 1, alt, depth)
                     if v not in vals:
                         vals.append(v)
+                if single_optional and len(al) > 1:
+                    vals += [v for v in single_optional_variants(mmv, a) if v not in vals]
             vals_by_alt.append(vals)
             for v in vals:
                 j = dict(base)
@@ -110,7 +138,22 @@ def site_stream(mmv, pkg, shapes=((0, 0), (1, 3))):
         if not names or not names[1]:
             continue
         for ai, a in enumerate(alts(mmv, r["result"])):
-            vals = [None] if (a["kind"] == "base" and a["name"] == "null") else [mmv.value(a, 1, 0, 0), mmv.value(a, 1, 1, 3)]
+            if a["kind"] == "base" and a["name"] == "null":
+                vals = [None]
+            else:
+                vals = []
+                for alt, depth in shapes:
+                    v = mmv.value(a, 1, alt, depth)
+                    if v not in vals:
+                        vals.append(v)
+                if single_optional:
+                    if a["kind"] == "array":
+                        vals += [[v] for v in single_optional_variants(mmv, a["element"]) if [v] not in vals]
+                        if is_or(mmv, a["element"]):
+                            for x in alts(mmv, a["element"]):
+                                vals += [[v] for v in single_optional_variants(mmv, x) if [v] not in vals]
+                    else:
+                        vals += [v for v in single_optional_variants(mmv, a) if v not in vals]
             for v in vals:
                 cases.append({"target": names[1], "input": {"jsonrpc": "2.0", "id": 1, "result": v}, "kind": "site-result",
                               "mmty": "(resp_ty %s)" % V.q(r["method"]), "site": "%s.result:alt%d=%s" % (names[1], ai, short(a))})
@@ -244,6 +287,69 @@ def envelope_type(kind, entry):
     return {"kind": "literal", "value": {"properties": ps}}
 
 
+def _snake(n):
+    import re
+    return re.sub(r"([a-z0-9])([A-Z])", r"\1_\2", re.sub(r"(.)([A-Z][a-z]+)", r"\1_\2", n)).lower()
+
+
+def alt_errors(mmv, strict, t, j, d, path, errs):
+    """C03, second half: wherever the real result holds an INSTANCE of a structure class at a union position, the JSON value at that
+    position must be valid for that structure (an instance of an alternative the input is not valid for is a violation even when
+    the object graph is well-typed).  Walks metamodel type / input JSON / dumped object graph in parallel."""
+    if len(errs) > 3:
+        return
+    k = t["kind"]
+    if k == "reference" and t["name"] in mmv.A and t["name"] not in OPAQUE:
+        return alt_errors(mmv, strict, mmv.A[t["name"]]["type"], j, d, path, errs)
+    if k == "or":
+        al = alts(mmv, t)
+        if isinstance(d, dict) and "$c" in d:
+            cn = d["$c"]
+            named = [a for a in al if a["kind"] == "reference" and a["name"] == cn]
+            if named:
+                if not strict.valid(named[0], j):
+                    errs.append("%s: result is an instance of %s but the input value is not a valid %s" % (path, cn, cn))
+                    return
+                return alt_errors(mmv, strict, named[0], j, d, path, errs)
+            return          # class generated for an anonymous literal / and-type: its name is not specified
+        if isinstance(d, list) and isinstance(j, list):
+            for a in al:
+                if a["kind"] == "array" and strict.valid(a, j):
+                    return alt_errors(mmv, strict, a, j, d, path, errs)
+        return
+    if k == "reference" and t["name"] in mmv.S and isinstance(j, dict) and isinstance(d, dict) and d.get("$c") == t["name"]:
+        fs = d.get("f") or {}
+        for pn, p in mmv.flat(t["name"]).items():
+            if pn in j:
+                an = _snake(pn)
+                an = an if an in fs else (an + "_" if an + "_" in fs else None)
+                if an is not None and fs[an] is not None:
+                    alt_errors(mmv, strict, p["type"], j[pn], fs[an], path + "." + pn, errs)
+        return
+    if k == "array" and isinstance(j, list) and isinstance(d, list) and len(j) == len(d):
+        for i, (x, y) in enumerate(zip(j, d)):
+            alt_errors(mmv, strict, t["element"], x, y, "%s[%d]" % (path, i), errs)
+        return
+    if k == "map" and isinstance(j, dict) and isinstance(d, dict) and "$d" in d:
+        dd = {kk if isinstance(kk, str) else json.dumps(kk): vv for kk, vv in d["$d"]}
+        for kk, vv in j.items():
+            if kk in dd:
+                alt_errors(mmv, strict, t["value"], vv, dd[kk], "%s{%s}" % (path, kk), errs)
+        return
+    if k == "literal" and isinstance(j, dict) and isinstance(d, dict) and "$c" in d:
+        fs = d.get("f") or {}
+        for p in t["value"]["properties"]:
+            pn = p["name"]
+            if pn in j:
+                an = _snake(pn)
+                an = an if an in fs else (an + "_" if an + "_" in fs else None)
+                if an is not None and fs[an] is not None:
+                    alt_errors(mmv, strict, p["type"], j[pn], fs[an], path + "." + pn, errs)
+
+
+_STRICT = {}
+
+
 def judge(case, r):
     """which of C14 / C03 / C01 the REAL converter's result violates on a valid input: list of (property, detail)"""
     if not r["ok"]:
@@ -251,6 +357,17 @@ def judge(case, r):
     out = []
     if not r.get("typed", True):
         out.append(("C03", "ill-typed result: %s" % json.dumps(r.get("type_errors"))[:300]))
+    elif case.get("pytype") is not None and case.get("_mmv") is not None:
+        import strictpy
+        mmv = case["_mmv"]
+        st = _STRICT.setdefault(id(mmv), strictpy.Strict(mmv))
+        errs = []
+        try:
+            alt_errors(mmv, st, case["pytype"], case["input"], r.get("dump"), case["target"], errs)
+        except Exception as e:  # the oracle must never take the check down
+            errs = []
+        if errs:
+            out.append(("C03", "well-typed but wrong alternative: " + "; ".join(errs)[:300]))
     if not r.get("unstr_ok"):
         out.append(("C01", "unstructuring raises %s" % r.get("err")))
     elif not (typed_eq(case["_mmv"], case["pytype"], case["input"], unfl(r["unstr"])) if case.get("pytype") is not None and case.get("_mmv") is not None
@@ -390,7 +507,7 @@ def check_property(chk, prop, streams, extra_gen=()):
         pkg = CS.load_pkg(mmv) if ok else dict(CS.load_pkg(mmv), fallback=True)
         cases = []
         if "site" in streams:
-            cases += site_stream(mmv, pkg)
+            cases += site_stream(mmv, pkg, single_optional=True)
         if "alias" in streams:
             cases += alias_cases(mmv, pkg)
         if "sys" in streams:
@@ -424,6 +541,14 @@ def check_property(chk, prop, streams, extra_gen=()):
         if f["case"].get("kind") == "alias-target":
             keys.append("alias-target=%s" % f["case"]["target"])
         k = next((k for k in keys if k in known_keys), None)
+        if k is None and not ok:
+            # model unavailable (translator rejected): no dispatch trace.  A failure that passes through the union of a recorded
+            # finding is attributed to it (the broken translation is reported by itself, so nothing is hidden by this)
+            for u in (real[f["index"]].get("fail_unions") or []):
+                pre = "union=%s|" % u.replace(" ", "")
+                k = next((kk for kk in known_keys if kk.startswith(pre)), None)
+                if k:
+                    break
         if k:
             hit.setdefault(k, f)
         else:
